@@ -47,6 +47,15 @@ impl RespParser {
             return Ok(None);
         }
         
+        // A raw PING may arrive split across reads: a proper prefix of "PING" cannot be decided yet
+        // (it must not be judged as a frame with an invalid type byte just because of the chunking)
+        {
+            let rest = &self.buffer[self.position..];
+            if rest.len() < 4 && b"PING".starts_with(rest) {
+                return Ok(None);
+            }
+        }
+        
         // Special handling for raw protocol (e.g., redis-benchmark sometimes sends raw "PING")
         if self.position + 4 <= self.buffer.len() && 
            &self.buffer[self.position..self.position+4] == b"PING" {
